@@ -145,17 +145,37 @@ func (c *Ctx) CapRules(ob *core.Obligation, fixedDraw, sendAll, receive *ssa.Fun
 			ob.Fail(key, c.P.Pos(fixedDraw.Pos()), "no arm for capped sources / no amount parameter in the fixed-amount draw")
 		} else {
 			n := 0
-			for _, call := range callsIn(fixedDraw, entry, func(sc *ssa.Function) bool { return sc == fixedDraw }) {
-				n++
-				arg := call.Call.Args[amtIdx]
-				a, b, isMin := c.minCallOperands(writerOrSelf(arg), minOK)
-				switch {
-				case !isMin:
-					ob.Fail(key, c.P.Pos(call.Pos()), "the amount drawn below a max cap is not the result of a (verified) minimum of the needed amount and the cap")
-				case (a == fixedDraw.Params[amtIdx] && c.evaluatedFrom(b, fixedDraw, "SourceCapped.Cap")) || (b == fixedDraw.Params[amtIdx] && c.evaluatedFrom(a, fixedDraw, "SourceCapped.Cap")):
-					ob.Pass(key, c.P.Pos(call.Pos()), "sub-draw amount = min(needed amount, evaluated cap)")
-				default:
-					ob.Fail(key, c.P.Pos(call.Pos()), "the minimum below a max cap is not taken between the needed amount and the cap of this very node")
+			// the arm itself, or a helper of the package the arm hands its amount to
+			type site struct {
+				fn     *ssa.Function
+				entry  *ssa.BasicBlock
+				needed ssa.Value
+			}
+			sites := []site{{fixedDraw, entry, fixedDraw.Params[amtIdx]}}
+			for _, call := range callsIn(fixedDraw, entry, func(sc *ssa.Function) bool {
+				return sc != fixedDraw && len(sc.Blocks) > 0 && relOfFn(sc) == relOfFn(fixedDraw) && len(clauseEntries(sc, src)) <= 1
+			}) {
+				sc := call.Call.StaticCallee()
+				for ai, a := range call.Call.Args {
+					if a == ssa.Value(fixedDraw.Params[amtIdx]) && ai < len(sc.Params) {
+						sites = append(sites, site{sc, sc.Blocks[0], sc.Params[ai]})
+						c.Touch(sc)
+					}
+				}
+			}
+			for _, st := range sites {
+				for _, call := range callsIn(st.fn, st.entry, func(sc *ssa.Function) bool { return sc == fixedDraw }) {
+					n++
+					arg := call.Call.Args[amtIdx]
+					a, b, isMin := c.minCallOperands(writerOrSelf(arg), minOK)
+					switch {
+					case !isMin:
+						ob.Fail(key, c.P.Pos(call.Pos()), "the amount drawn below a max cap is not the result of a (verified) minimum of the needed amount and the cap")
+					case (a == st.needed && c.evaluatedFrom(b, st.fn, "SourceCapped.Cap")) || (b == st.needed && c.evaluatedFrom(a, st.fn, "SourceCapped.Cap")):
+						ob.Pass(key, c.P.Pos(call.Pos()), "sub-draw amount = min(needed amount, evaluated cap)")
+					default:
+						ob.Fail(key, c.P.Pos(call.Pos()), "the minimum below a max cap is not taken between the needed amount and the cap of this very node")
+					}
 				}
 			}
 			if n == 0 {
@@ -477,6 +497,13 @@ func (c *Ctx) underNilGate(pred, succ *ssa.BasicBlock, fn *ssa.Function, pc *cor
 		if !ok || (bo.Op != token.EQL && bo.Op != token.NEQ) {
 			return false
 		}
+		// the account is @world, which is unbounded whatever grant it was given
+		if k, ok := core.ConstString(bo.Y); ok && k == "world" {
+			return (bo.Op == token.EQL) == l.Val
+		}
+		if k, ok := core.ConstString(bo.X); ok && k == "world" {
+			return (bo.Op == token.EQL) == l.Val
+		}
 		var other ssa.Value
 		if core.IsNilConst(bo.Y) {
 			other = bo.X
@@ -620,6 +647,9 @@ func (c *Ctx) PostingsAppliedToCache(ob *core.Obligation, r *Roles) {
 		key := "apply-postings:" + core.SSAName(fn)
 		var subOK, addOK bool
 		bad := ""
+		var applier *ssa.Function
+		var applierHead *ssa.BasicBlock
+		var applierCall *ssa.Call
 		// the loop over the reconciler's result
 		var head *ssa.BasicBlock
 		for _, b := range fn.Blocks {
@@ -632,8 +662,46 @@ func (c *Ctx) PostingsAppliedToCache(ob *core.Obligation, r *Roles) {
 				}
 			}
 		}
+		// the whole loop may live in a helper that is handed the list of postings
+		if head == nil {
+			for _, ci := range core.Calls(fn) {
+				call, ok := ci.(*ssa.Call)
+				if !ok {
+					continue
+				}
+				sc := call.Call.StaticCallee()
+				if sc == nil || sc == fn || len(sc.Blocks) == 0 || relOfFn(sc) != "internal/interpreter" {
+					continue
+				}
+				for ai, a := range call.Call.Args {
+					ex, isEx := a.(*ssa.Extract)
+					if !isEx || ex.Tuple != ssa.Value(rec) || ex.Index != 0 || ai >= len(sc.Params) {
+						continue
+					}
+					// the helper's loop over that parameter, passed on every path of the helper
+					for _, hb := range sc.Blocks {
+						iff, ok := hb.Instrs[len(hb.Instrs)-1].(*ssa.If)
+						if !ok || !isRangeCond(iff.Cond) {
+							continue
+						}
+						bo := iff.Cond.(*ssa.BinOp)
+						if lc, ok := core.Strip(bo.Y).(*ssa.Call); ok && len(lc.Call.Args) == 1 && lc.Call.Args[0] == ssa.Value(sc.Params[ai]) && blockOnEveryPath(sc, hb) {
+							applier, applierHead, applierCall = sc, hb, call
+						}
+					}
+				}
+			}
+		}
 		// the body may be a helper that is handed the posting, called on every iteration
 		var scan []ssa.CallInstruction
+		if applier != nil {
+			c.Touch(applier)
+			for _, c2 := range core.Calls(applier) {
+				if applierHead.Dominates(c2.Block()) {
+					scan = append(scan, c2)
+				}
+			}
+		}
 		scan = append(scan, core.Calls(fn)...)
 		if head != nil {
 			for _, ci := range core.Calls(fn) {
@@ -702,7 +770,15 @@ func (c *Ctx) PostingsAppliedToCache(ob *core.Obligation, r *Roles) {
 		}
 		// every success return is dominated by the loop over the reconciler's result
 		loopOK := true
-		if head == nil {
+		if head == nil && applierCall != nil {
+			// the helper call must precede every successful return
+			ei := errIndex(fn.Signature)
+			for _, ret := range core.Returns(fn) {
+				if ei >= 0 && core.IsNilConst(ret.Results[ei]) && !applierCall.Block().Dominates(ret.Block()) {
+					loopOK = false
+				}
+			}
+		} else if head == nil {
 			loopOK = false
 		} else {
 			ei := errIndex(fn.Signature)
